@@ -5,9 +5,9 @@
    Stage 1 (Model/Props.v): the chain of one owner as a value, chain = list of
    (key, value) links.  Stage 2 (Model/PropsHeap.v): links in an explicit heap,
    owners hold head pointers, by-value cell copies share them. *)
-From Tab Require Import Model.Props Model.PropsHeap Spec.PropMap
+From Tab Require Import Model.Props Model.PropsHeap Model.PropsVia Spec.PropMap Spec.PropMapVia
   Proofs.PropsProofs Proofs.PropsHeapProofs Proofs.PropsMachineProofs Proofs.PropsTheorems
-  Findings.PropsLegacy.
+  Proofs.PropsViaProofs Findings.PropsLegacy.
 
 (* ------------------------------------------------------------ one owner *)
 
@@ -150,6 +150,40 @@ Theorem c12_handle : forall ops st st' hd n,
 Proof. exact handle_stable. Qed.
 Print Assumptions c12_handle.
 
+(* ------------------------------------------------------------ through rendering wrappers *)
+
+(* For every history in which the table is handled under any number of names -
+   the core table and rendering wrappers around it (texttable, csv, json, html,
+   markdown, whatever auto.New / auto.Wrap returns), made at any moment - and
+   every op and every read goes through any of them, the model's observation
+   after every step is the one the per-owner abstract maps predict: a wrapper
+   stands for the table, one map per owner under all of its names. *)
+Theorem c12_via_refines : forall U watch ops,
+  vuniverse_ok U ops = true -> v_run v_init U watch ops = vexpected U watch ops.
+Proof. exact via_refines. Qed.
+Print Assumptions c12_via_refines.
+
+(* Wrappers are transparent: whatever the facades, the core table ends in
+   exactly the state of the same history called on the table itself. *)
+Theorem c12_via_transparent : forall ops vs vs',
+  v_steps vs ops = Ok vs' ->
+  m_steps (v_core vs) (vops_effective (length (v_wraps vs)) ops) = Ok (v_core vs')
+  /\ length (v_wraps vs) <= length (v_wraps vs').
+Proof. exact via_transparent. Qed.
+Print Assumptions c12_via_transparent.
+
+(* frame, between owners, through any facades: a set on owner ow made through
+   facade w leaves what any other owner o' reports, read through any facade
+   w', unchanged (ow = the table through a wrapper, o' = column 0 included). *)
+Theorem c12_via_frame_owners : forall U ops vs w ow k v w' o',
+  NoDup U -> Forall (key_in_U U) (vops_ops ops) -> In k U ->
+  v_steps v_init ops = Ok vs -> w <= length (v_wraps vs) ->
+  canon (s_steps s_init (vops_effective 0 ops)) ow <> canon (s_steps s_init (vops_effective 0 ops)) o' ->
+  exists vs' r, v_step vs (VOp w (SetP ow k v)) = Ok (vs', r)
+                /\ v_entry vs' U (w', o') = v_entry vs U (w', o').
+Proof. exact via_frame_owners. Qed.
+Print Assumptions c12_via_frame_owners.
+
 (* ------------------------------------------------------------ the pinned tree *)
 
 (* D13: the in-place unlink of the pinned tree is not allocation-only and
@@ -181,4 +215,18 @@ Example c12_example :
   universe_ok [i1; i64] ops = true
   /\ last (m_run m_init [i1; i64] [OCell 0 0; ODet 0; OCol 1] ops) (0, [])
      = (4, [Some (1, [8; 0]); Some (2, [10; 9]); Some (1, [4; 0])]).
+Proof. split; vm_compute; reflexivity. Qed.
+
+(* non-vacuity, wrappers: column 0 holds a value of its own; the table is then
+   set, and set to nil, through the second of two wrappers; column 0 (read
+   through the first wrapper and through the core) keeps its own value, the
+   table (read through the core) shows what was set through the wrapper *)
+Example c12_via_example :
+  let k1 : key := (3, 0%N) in let k2 : key := (3, 1%N) in
+  let ops := [VWrap 0; VOp 1 (AddRowItems 2); VWrap 1;
+              VOp 0 (SetP (OCol 0) k1 (Some 5)); VOp 2 (SetP OTable k1 (Some 6));
+              VOp 2 (SetP OTable k2 (Some 7)); VOp 1 (SetP OTable k1 None); VOp 3 (GetP OTable k1)] in
+  vuniverse_ok [k1; k2] ops = true
+  /\ last (v_run v_init [k1; k2] [(0, OTable); (1, OCol 0); (0, OCol 0); (2, OCol 1); (3, OTable)] ops) (0, [])
+     = (99, [Some (1, [0; 8]); Some (1, [6; 0]); Some (1, [6; 0]); Some (0, [0; 0]); None]).
 Proof. split; vm_compute; reflexivity. Qed.
